@@ -8,7 +8,10 @@
 //! variables (normalised weights: finite fields, expected utility, complex, polynomial);
 //! dependency-restricted sum for arbitrary integer weights; truth-table lookup for evaluate.
 use rsdd::constants::primes;
-use rsdd::repr::{BddPtr, DDNNFPtr, VarLabel, WmcParams};
+use rsdd::builder::decision_nnf::{DecisionNNFBuilder, StandardDecisionNNFBuilder};
+use rsdd::builder::sdd::{CompressionSddBuilder, SddBuilder};
+use rsdd::builder::BottomUpBuilder;
+use rsdd::repr::{BddPtr, Cnf, DDNNFPtr, Literal, SddPtr, VTree, VarLabel, VarOrder, WmcParams};
 use rsdd::util::semirings::{Complex, ExpectedUtility, FiniteField, Polynomial, RationalSemiring, RealSemiring, Semiring};
 use rsdd_verif_harness::bddprog::*;
 use rsdd_verif_harness::*;
@@ -100,6 +103,80 @@ fn dep_sum(t: &Table, levels: &[usize], k: usize, fixed: usize, w: &[(i128, i128
     } else {
         dep_sum(t, levels, k + 1, fixed & !(1 << v), w)
     }
+}
+
+// ---- the same function as an SDD (random vtrees) and as a decision-DNNF: the counts with
+// normalised weights must be the same sums (independence of representation)
+fn rand_vtree(rng: &mut Rng, vars: &[usize]) -> VTree {
+    if vars.len() == 1 {
+        return VTree::new_leaf(VarLabel::new(vars[0] as u64));
+    }
+    let k = rng.range(1, vars.len() - 1);
+    VTree::new_node(Box::new(rand_vtree(rng, &vars[..k])), Box::new(rand_vtree(rng, &vars[k..])))
+}
+fn exec_sdd<'a>(b: &'a CompressionSddBuilder<'a>, prog: &Prog) -> Option<Vec<SddPtr<'a>>> {
+    let mut pool: Vec<SddPtr<'a>> = vec![];
+    for op in &prog.ops {
+        let g = |i: &usize| -> SddPtr<'a> { *pool.get(*i).unwrap_or(&SddPtr::PtrFalse) };
+        let r = match op {
+            Op::Const(c) => if *c { SddPtr::PtrTrue } else { SddPtr::PtrFalse },
+            Op::Var(v, p) => b.var(VarLabel::new(*v), *p),
+            Op::Neg(i) => b.negate(g(i)),
+            Op::And(i, j) => b.and(g(i), g(j)),
+            Op::Or(i, j) => b.or(g(i), g(j)),
+            Op::Xor(i, j) => b.xor(g(i), g(j)),
+            Op::Iff(i, j) => b.iff(g(i), g(j)),
+            Op::Ite(i, j, k) => b.ite(g(i), g(j), g(k)),
+            Op::Cond(i, v, val) => b.condition(g(i), VarLabel::new(*v), *val),
+            Op::CondModel(i, lits) => lits.iter().fold(g(i), |acc, (v, val)| b.condition(acc, VarLabel::new(*v), *val)),
+            Op::Exists(i, v) => b.exists(g(i), VarLabel::new(*v)),
+            Op::Compose(i, v, j) => b.compose(g(i), VarLabel::new(*v), g(j)),
+            Op::AndLst(l) => l.iter().fold(SddPtr::PtrTrue, |acc, i| b.and(acc, g(i))),
+            Op::OrLst(l) => l.iter().fold(SddPtr::PtrFalse, |acc, i| b.or(acc, g(i))),
+            Op::NewVar(_) => return None,
+        };
+        pool.push(r);
+    }
+    Some(pool)
+}
+fn sdd_eval(p: SddPtr, a: usize) -> bool {
+    match p {
+        SddPtr::PtrTrue => true,
+        SddPtr::PtrFalse => false,
+        SddPtr::Var(l, b) => ((a >> l.value()) & 1 == 1) == b,
+        SddPtr::BDD(n) | SddPtr::ComplBDD(n) => {
+            let x = if (a >> n.label().value()) & 1 == 1 { sdd_eval(n.high(), a) } else { sdd_eval(n.low(), a) };
+            x != matches!(p, SddPtr::ComplBDD(_))
+        }
+        SddPtr::Reg(o) | SddPtr::Compl(o) => {
+            let x = o.iter().any(|e| sdd_eval(e.prime(), a) && sdd_eval(e.sub(), a));
+            x != matches!(p, SddPtr::Compl(_))
+        }
+    }
+}
+fn ff_count_any<'a, const P: u128, D: DDNNFPtr<'a>>(p: D, codes: &[u64]) -> u128 {
+    let params: WmcParams<FiniteField<P>> = WmcParams::new(HashMap::from_iter(codes.iter().enumerate().map(|(v, c)| {
+        let hi = hi_of_code(*c, P);
+        (VarLabel::new(v as u64), (FiniteField::new((P + 1 - hi) % P), FiniteField::new(hi)))
+    })));
+    p.unsmoothed_wmc(&params).value()
+}
+/// all normalised-weight counts of one diagram of any kind, as one comparable string
+fn counts_any<'a, D: DDNNFPtr<'a>>(p: D, codes: &[u64], total: usize) -> String {
+    let pr8 = |c: u64| (c % 9) as f64 / 8.0;
+    let ut = |c: u64| ((c / 3) % 5) as f64 - 2.0;
+    let eu: WmcParams<ExpectedUtility> = WmcParams::new(HashMap::from_iter((0..total).map(|v| (VarLabel::new(v as u64), (ExpectedUtility(1.0 - pr8(codes[v]), -ut(codes[v])), ExpectedUtility(pr8(codes[v]), ut(codes[v])))))));
+    let cx: WmcParams<Complex> = WmcParams::new(HashMap::from_iter((0..total).map(|v| (VarLabel::new(v as u64), (Complex { re: 1.0 - pr8(codes[v]), im: -ut(codes[v]) }, Complex { re: pr8(codes[v]), im: ut(codes[v]) })))));
+    let mk_poly = |a: f64, bb: f64| { let mut q = Polynomial::<RealSemiring>::zero(); q.coefficients[0] = RealSemiring(a); q.coefficients[1] = RealSemiring(bb); q.len = 2; q };
+    let pl: WmcParams<Polynomial<RealSemiring>> = WmcParams::new(HashMap::from_iter((0..total).map(|v| (VarLabel::new(v as u64), (mk_poly(1.0 - pr8(codes[v]), -ut(codes[v])), mk_poly(pr8(codes[v]), ut(codes[v])))))));
+    let e = p.unsmoothed_wmc(&eu);
+    let c = p.unsmoothed_wmc(&cx);
+    let q = p.unsmoothed_wmc(&pl);
+    // x + 0.0 turns -0.0 into 0.0: the two zeros are the same number
+    let coeffs: Vec<String> = (0..=total.min(31)).map(|i| format!("{}", q.coefficients[i].0 + 0.0)).collect();
+    format!("ff1={} ff2={} ff3={} eu=({},{}) cx=({},{}) poly=[{}]",
+        ff_count_any::<{ PRIMES[1] }, D>(p, codes), ff_count_any::<{ PRIMES[2] }, D>(p, codes), ff_count_any::<{ PRIMES[3] }, D>(p, codes),
+        e.0 + 0.0, e.1 + 0.0, c.re + 0.0, c.im + 0.0, coeffs.join(","))
 }
 
 pub fn run(case: &str, st: &mut Stats) -> Outcome {
@@ -209,6 +286,49 @@ pub fn run(case: &str, st: &mut Stats) -> Outcome {
     let r_rt = p.unsmoothed_wmc(&rt);
     if (r_rt == RationalSemiring::one()) != t[a_idx] || (r_rt == RationalSemiring::zero()) == t[a_idx] {
         fails.push(format!("rational semiring with indicator weights: {r_rt} but the diagram denotes {}", t[a_idx]));
+    }
+    // --- the same function as SDDs under two random vtrees and as a top-down decision-DNNF:
+    // every normalised count must coincide with the BDD's (already checked against brute force)
+    let reference = counts_any(p, &codes, total);
+    let mut lrng = Rng::new(case.len() as u64 * 7919 + codes.iter().sum::<u64>());
+    if !prog.ops.iter().any(|o| matches!(o, Op::NewVar(_))) {
+        for _ in 0..2 {
+            let vars = lrng.perm(total);
+            let vt = rand_vtree(&mut lrng, &vars);
+            let sb = CompressionSddBuilder::new(vt);
+            if let Some(spool) = exec_sdd(&sb, &prog) {
+                let sp = if neg { spool[target].neg() } else { spool[target] };
+                if (0..(1usize << total)).any(|a| sdd_eval(sp, a) != t[a]) {
+                    fails.push("the SDD built by the same program denotes a different function (see C03)".to_string());
+                } else {
+                    let got = counts_any(sp, &codes, total);
+                    if got != reference {
+                        fails.push(format!("SDD counts {got} differ from the BDD counts {reference} of the same function (vtree over {vars:?})"));
+                    }
+                    st.bump("sdd_counts_compared");
+                    if matches!(sp, SddPtr::Reg(_) | SddPtr::Compl(_)) { st.bump("sdd_general_node_root"); }
+                }
+            }
+        }
+    }
+    if total <= 5 {
+        // canonical CNF of the function: one clause per falsifying assignment
+        let clauses: Vec<Vec<Literal>> = (0..(1usize << total)).filter(|a| !t[*a]).map(|a| (0..total).map(|v| Literal::new(VarLabel::new(v as u64), (a >> v) & 1 == 0)).collect()).collect();
+        if !clauses.is_empty() && total >= 1 {
+            let cnf = Cnf::new(&clauses);
+            let order: Vec<VarLabel> = lrng.perm(total).iter().map(|v| VarLabel::new(*v as u64)).collect();
+            let db = StandardDecisionNNFBuilder::new(VarOrder::new(&order));
+            let d = db.compile_cnf_topdown(&cnf);
+            if (0..(1usize << total)).any(|a| eval_ptr(d, a) != t[a]) {
+                fails.push("the top-down decision-DNNF of the function's CNF denotes a different function (see C06)".to_string());
+            } else {
+                let got = counts_any(d, &codes, total);
+                if got != reference {
+                    fails.push(format!("decision-DNNF counts {got} differ from the BDD counts {reference} of the same function"));
+                }
+                st.bump("dnnf_counts_compared");
+            }
+        }
     }
     st.bump(if neg { "complemented_root" } else { "regular_root" });
     st.bump(&format!("total_vars={total}"));
